@@ -6,6 +6,7 @@
 #include "imgworld.h"
 #include "Sprite/SpriteLoader.h"
 #include "Stream/DynamicMemoryWriter.h"
+#include <set>
 #include <stdexcept>
 #include <unordered_set>
 
@@ -31,17 +32,31 @@ struct ImageDamage : Family {
 		std::string kind = k < 4 ? "bmp" : k < 5 ? "tsbmp" : k < 7 ? "pbmp" : "prt";
 		t.set("kind", kind);
 		p.world.push_back(t);
+		// one picture world in eight is LARGE: its pixel section lies on or next to a multiple of 128 KiB .. 1 MiB, and it is swept at
+		// selected crash points only (around the end and around every 64 KiB multiple)
+		bool large = kind != "prt" && r.chance(1, 8);
+		static const uint64_t BLK[] = {131072, 262144, 1048576, 1048576};
 		if (kind == "bmp") {
 			static const int BITS[] = {1, 4, 8};
 			int bits = BITS[r.below(3)];
 			int64_t h = static_cast<int64_t>(r.below(9));
+			uint64_t w = 1 + r.below(40);
+			if (large) {
+				static const uint64_t W[] = {1024, 1000, 512, 4096, 100};
+				bits = 8; w = W[r.below(5)];
+				uint64_t pitch = (w + 3) & ~3ull, rows = BLK[r.below(4)] / pitch * r.range(1, 2);
+				switch (r.below(4)) { case 0: rows += 1; break; case 1: rows -= 1; break; default: break; }
+				h = static_cast<int64_t>(rows);
+			}
 			if (r.chance(1, 2)) h = -h;
 			Line b = mkline("world", "bmp");
-			b.set("seed", hex64(r.next())).set("bits", static_cast<uint64_t>(bits)).set("w", 1 + r.below(40)).set("h", std::to_string(h)).set("used", r.chance(1, 2) ? 0 : r.range(1, 1ull << bits)).set("junkhdr", r.below(2));
+			b.set("seed", hex64(r.next())).set("bits", static_cast<uint64_t>(bits)).set("w", w).set("h", std::to_string(h)).set("used", r.chance(1, 2) ? 0 : r.range(1, 1ull << bits)).set("junkhdr", r.below(2));
 			p.world.push_back(b);
 		} else if (kind == "tsbmp" || kind == "pbmp") {
 			Line ts = mkline("world", "tileset");
-			ts.set("seed", hex64(r.next())).set("tiles", r.below(3)).set("bottomup", r.below(2));
+			uint64_t tiles = r.below(3);
+			if (large) { tiles = BLK[r.below(4)] / 1024 * r.range(1, 2); switch (r.below(4)) { case 0: tiles += 1; break; case 1: tiles -= 1; break; default: break; } }
+			ts.set("seed", hex64(r.next())).set("tiles", tiles).set("bottomup", r.below(2));
 			p.world.push_back(ts);
 		} else {
 			Line w = mkline("world", "prt");
@@ -49,8 +64,9 @@ struct ImageDamage : Family {
 			w.set("seed", hex64(r.next())).set("npal", npal).set("nimg", r.below(5)).set("nanim", r.below(4)).set("canonical", 1);
 			p.world.push_back(w);
 		}
-		p.damage.push_back(mkline("damage", "all"));
-		size_t nops = static_cast<size_t>(r.range(3, 8));
+		p.damage.push_back(mkline("damage", large ? "large" : "all"));
+		if (large) p.setenv("large", 1); // survives the pinning of a single variant
+		size_t nops = static_cast<size_t>(large ? r.range(2, 4) : r.range(3, 8));
 		static const char* IMGOPS[] = {"validate", "write", "writecustom", "flip", "swap", "flip", "write"};
 		static const char* BIG[] = {"0x100000000", "0xffffffffffffffff", "0x7fffffff"};
 		for (size_t i = 0; i < nops; ++i) {
@@ -148,10 +164,20 @@ struct ImageDamage : Family {
 				}
 			}
 		} else throw std::runtime_error("bad target kind");
-		if (valid.size() > (256u << 10)) throw std::runtime_error("image-damage target too large");
+		bool largeSweep = !plan.damage.empty() && plan.damage[0].verb == "large";
+		if (valid.size() > (largeSweep || plan.envu("large", 0) ? (5u << 20) : (256u << 10))) throw std::runtime_error("image-damage target too large");
 		bool thorough = plan.envu("thorough", 0) != 0;
 		std::vector<Line> variants;
 		if (plan.damage.empty()) variants.push_back(mkline("damage", "none"));
+		else if (largeSweep) {
+			variants.push_back(mkline("damage", "none"));
+			std::set<size_t> cuts;
+			auto cut = [&](uint64_t k) { if (k < valid.size()) cuts.insert(static_cast<size_t>(k)); };
+			for (uint64_t d : {1, 2, 3, 4, 5, 8, 16, 31, 32, 33, 1024, 4096, 65536}) if (valid.size() > d) cut(valid.size() - d);
+			for (uint64_t k = 65536; k < valid.size() + 65536; k += 65536) for (int64_t d : {-1, 0, 1}) { cut(k + static_cast<uint64_t>(d)); cut(k + headerLen + static_cast<uint64_t>(d)); }
+			while (cuts.size() > 120) cuts.erase(std::next(cuts.begin(), static_cast<long>(mix64(plan.seed, cuts.size()) % cuts.size())));
+			for (size_t k : cuts) { Line l = mkline("damage", "truncate"); l.set("k", k); variants.push_back(l); }
+		}
 		else if (plan.damage[0].verb != "all") variants = plan.damage;
 		else {
 			variants.push_back(mkline("damage", "none"));
